@@ -10,6 +10,7 @@ root pass straight through.  Inside the root a wrapper
       open-file table).
 """
 import builtins
+import re
 import errno
 import io
 import os
@@ -36,6 +37,9 @@ ERRNO = {
     "EIO": errno.EIO, "EMFILE": errno.EMFILE, "ENXIO": errno.ENXIO, "ENOSPC": errno.ENOSPC,
     "ENOTDIR": errno.ENOTDIR,
 }
+
+
+_TMPNAME = re.compile(r"\.\d+-\d+\.tmp$")
 
 
 def _mk_oserror(name, path):
@@ -297,7 +301,8 @@ class FsSeam:
             if f.nth == "all" or f.nth == i:
                 f.fired += 1
                 self.count("fault_%s_%s" % (op, f.kind))
-                self.sim and self.sim.note("fault", op, rel, f.kind)
+                # (temporary names carry the process and thread id: not part of the event)
+                self.sim and self.sim.note("fault", op, _TMPNAME.sub(".<pid>-<tid>.tmp", rel), f.kind)
                 return f
         return None
 
